@@ -938,6 +938,7 @@ func rulePoison(p *Prog, r *RuleResult) {
 			}
 		}
 	})
+	errEdgeReturnsError(p, r, s.parent, s.errField)
 	if !scan {
 		r.fail(pname+"#first-error", p.Pos(s.parent.Pos()), "processBlock never returns a task's error: a failed task is not reported by the enclosing call")
 	} else {
